@@ -612,3 +612,34 @@ def note_case(ctx, w):
         ctx.stats['nontrivial'].add(hashlib.sha1(('\n'.join(w.ops[1:]) + '\n'.join(impl[1:])).encode()).hexdigest())
     if len(ctx.stats['samples']) < 6 and nontriv:
         ctx.stats['samples'].append(dict(tag=w.tag, ops=[o[:160] for o in w.ops[:14]], results=[l[:160] for l in impl[:14]]))
+
+
+def race_stress(ctx, runs=3):
+    """build the harness with -race and run the concurrent stress of Match*, Skip* and one shared
+    Config; a DATA RACE report is a violation with the report as replay"""
+    out_bin = os.path.join(ctx.tmp, 'race.test')
+    ov = os.path.join(ctx.tmp, 'race.overlay.json')
+    rep = {}
+    for f in glob.glob(ROOT + '/harness/snaps/*.go'):
+        rep[REPO + '/snaps/zz_verif_' + os.path.basename(f)] = f
+    json.dump({'Replace': rep}, open(ov, 'w'))
+    rc, out = sh(['go', 'test', '-c', '-race', '-vet=off', '-tags', 'verif', '-overlay', ov, '-o', out_bin, './snaps'], cwd=REPO)
+    if rc != 0:
+        ctx.add_obl('B.race-harness-builds', False, out[-2000:])
+        return
+    st = ctx.stats['suites'].setdefault('race.stress', dict(runs=0, races=0))
+    for i in range(runs):
+        e = dict(os.environ)
+        e.update(VERIF_RACE='1', NO_COLOR='1', GORACE='halt_on_error=0')
+        p = subprocess.run([out_bin, '-test.run', '^TestVerifRace$', '-test.count=1'], env=e, cwd=ctx.tmp,
+                           stdout=subprocess.PIPE, stderr=subprocess.STDOUT, timeout=600)
+        txt = p.stdout.decode('utf-8', 'replace')
+        st['runs'] += 1
+        ctx.stats['evaluations'] += 1
+        if 'DATA RACE' in txt:
+            st['races'] += txt.count('DATA RACE')
+            path = write_replay(ctx, 'data race reported by the Go race detector under concurrent Match*/Skip*/shared Config', [],
+                                txt[:6000], None, dict(kind='race'))
+            ctx.violations.append(('race', path, True))
+            return
+    ctx.add_obl('B.race-stress (no DATA RACE in %d runs)' % runs, True)
